@@ -172,6 +172,11 @@ var c12Monitor = MonMulti{Prop: "C12", Mons: []Monitor{MonC01{}, MonC02{}, MonC0
 
 // checkAll evaluates every tree against its own ideal map and canonical structure.
 func (r *productRun) checkAll(st *Stats, why string) *Violation {
+	// read-only calls are operations too: a bundle of queries incl. abandoned sequences on every tree first (whatever a
+	// query takes from or leaves in the pool is in play for the next operation of any tree)
+	for i, u := range r.sp.Trees {
+		WarmSequences(u, r.drv[i])
+	}
 	for i, u := range r.sp.Trees {
 		x := &Exec{U: u, D: r.drv[i], Ref: r.ref[i], Stats: st}
 		if v := c12Monitor.State(x); v != nil {
